@@ -130,6 +130,11 @@ class Geometry(ABC):
     def copy(self):
         pass
 
+    def __copy__(self, *args):
+        # the generic shallow copy would share every
+        # array, dict and cache with the original
+        return self.copy()
+
     @abc.abstractmethod
     def show(self):
         pass
